@@ -155,6 +155,18 @@ CHECKS = {
             "declared period once.",
             "Model and constraint-file readers in vchecks/c19.py. Only templates that render without vendor tools are covered.",
             "DESIGN.md §4 C19"),
+    "C06": ("exploration",
+            "Hypothesis-generated driver placements (legal / one-step near-miss pairs) and combinational dependency designs; "
+            "oracle = per-bit owner table and two own bit-level dependency graphs (precise: must reject, coarse: must accept) "
+            "with an own DFS",
+            "Both directions of the if-and-only-if are exercised: every generated legal placement is converted next to a "
+            "single-step mutation of it (grown range, moved module/domain, overlapped instance or buffer output) and the "
+            "accept/DriverConflict decision compared with a bit-owner table; combinational designs mixing bit-precise and "
+            "word-level constructs, conditions and two modules are judged against a precise dependency graph (a cycle "
+            "there must be reported as CombinationalCycle) and a coarse one (no cycle there must be accepted), which makes "
+            "the oracle sound where the documentation leaves the granularity open.",
+            "Graphs and DFS in vchecks/c06.py. Unsigned signals only in cycle designs.",
+            "DESIGN.md §4 C06"),
 }
 
 TITLES = {}
